@@ -95,6 +95,7 @@ def run_solver(repo, kinds, solve_for=('tidal',), nondimensionalize=False, slice
     for a in (ltypes, lstat, linc, lup): a.extent = nl
     extra_kwargs = dict(extra_kwargs or {})
     fail_layer = extra_kwargs.pop('__fail_layer__', None)
+    nan_inputs = extra_kwargs.pop('__nan_inputs__', False)       # a scalar input (frequency, bulk density, planet radius) is NaN: every isnan() test on them holds
     state = {'layer': -1, 'solve_count': {}, 'solution': None, 'love': None, 'zgesv': 0, 'solution_obj': None}
     r.state = state
 
@@ -200,6 +201,8 @@ def run_solver(repo, kinds, solve_for=('tidal',), nondimensionalize=False, slice
         raise AnalysisError(f'{fr.mod.where(e)}: construction of {cname} inside the solver is not modelled')
 
     def branch_hook(itp, st, v, fr):
+        if nan_inputs and isinstance(v, Opaque) and 'isnan' in v.name:
+            return True
         return False if isinstance(v, Opaque) else None        # isnan / NULL tests on finite, allocated data
 
     def glob_hook(itp, mod, nm):
